@@ -60,6 +60,7 @@ os.environ['VERIF_NO_ALPHA'] = '1'
 from sa import cfront
 cp = cfront.CProgram(REPO)
 ct = {name: cfront.c_locals(f) for name, f in sorted(cp.funcs.items()) if cfront.c_locals(f)}
+ct['__functions__'] = sorted(cp.funcs)
 with open(os.path.join(os.path.dirname(alpha.TABLE), 'alpha_names_c.json'), 'w') as fh:
     json.dump(ct, fh, indent=0, sort_keys=True)
     fh.write('\n')
